@@ -195,8 +195,7 @@ def run(ctx):
             meta = {'map': e['file'], 'terms': list(terms), 'line_break': brk, 'perturbed': nper, 'k': ['c20', ctx.shard, k]}
         judge(ctx, text, meta, eol, fix, mode, nper, sigs)
         n += 1
-        if k == 1:
-            ctx.case(n=0, sample=dict(meta, options=[eol, fix, mode], text_head=text[:200]))
+        ctx.sample(dict(meta, options=[eol, fix, mode], text_head=text[:200]))
     ctx.case(n=n, sigs=sorted(sigs))
 
 
